@@ -35,17 +35,51 @@ type simS struct {
 	ip            int
 	ws            []simW
 	finalisedDisk int // number of spilling Finalise calls completed
+	// fault list (C13): armed one after the other, as in morass_ctl.go and the Lean model
+	faults       []mFault
+	armed        int
+	err          bool // m._err is set
+	files        int  // run files registered in the current cycle
+	conc         bool // false: pool starts empty (sequential mode)
+	reuse        bool // the concurrent caller recovers with Clear after an error
+	reported     int  // calls that returned an I/O error
+	clearedAlive bool // a Clear ran while a write() activation was alive (after an error)
+}
+
+// tick: one execution of fault point pt; true = it fails.
+func (s *simS) tick(pt string) bool {
+	if s.armed < len(s.faults) && s.faults[s.armed].point == pt {
+		if s.faults[s.armed].n == 0 {
+			s.armed++
+			return true
+		}
+		s.faults[s.armed].n--
+	}
+	return false
+}
+
+// fail: the current call returns an I/O error; the caller makes no call until its next Clear
+// (or gives up: concurrent mode without reuse); a final CleanUp ('u') is still made.
+func (s *simS) fail() {
+	s.reported++
+	s.pc = 0
+	s.ip++
+	for s.ip < len(s.prog) && s.prog[s.ip] != 'u' && (s.prog[s.ip] != 'c' || (s.conc && !s.reuse)) {
+		s.ip++
+	}
 }
 
 func (s *simS) clone() *simS {
 	t := *s
 	t.writable = append([]int(nil), s.writable...)
 	t.ws = append([]simW(nil), s.ws...)
+	t.faults = append([]mFault(nil), s.faults...)
 	return &t
 }
 
 func (s *simS) clear() {
 	s.pos, s.ln, s.rem = 0, 0, 0
+	s.files, s.err = 0, false
 	if s.pool > 0 {
 		s.chunk = 0
 		s.pool--
@@ -63,17 +97,28 @@ func (s *simS) wstep(w *simW) bool {
 		w.todo = s.writable[0]
 		s.writable = s.writable[1:]
 		w.pc = 1
+		if s.tick("tempfile") {
+			s.err, w.pc = true, 4
+		}
 	case 1:
+		s.files++
 		w.pc = 2
 		if w.todo == 0 {
 			w.pc = 3
 		}
 	case 2:
+		if s.tick("encode") {
+			s.err, w.pc = true, 4
+			break
+		}
 		w.todo--
 		if w.todo == 0 {
 			w.pc = 3
 		}
 	case 3:
+		if s.tick("sync") {
+			s.err = true
+		}
 		w.pc = 4
 	case 4:
 		if s.pool >= 2 {
@@ -103,7 +148,9 @@ func (s *simS) step(a int) bool {
 		}
 		switch s.prog[s.ip] {
 		case 'p':
-			if s.chunk == -1 {
+			if s.err {
+				s.fail()
+			} else if s.chunk == -1 {
 				s.ip++
 			} else if s.chunk == s.c {
 				s.pc = 1
@@ -114,7 +161,9 @@ func (s *simS) step(a int) bool {
 				s.ip++
 			}
 		case 'f':
-			if s.chunk == -1 {
+			if s.err {
+				s.fail()
+			} else if s.chunk == -1 {
 				s.ip++
 			} else if s.pos < s.c {
 				s.fast, s.pos = true, 0
@@ -142,14 +191,23 @@ func (s *simS) step(a int) bool {
 			} else if s.rem > 0 {
 				s.rem--
 				s.pos++
+				if s.tick("pdecode") {
+					s.fail()
+					break
+				}
 			} else if s.ac {
 				s.clear()
 			}
 			s.ip++
 		case 'c':
+			if s.reported > 0 && (s.writersAlive() || len(s.writable) > 0) {
+				s.clearedAlive = true
+			}
 			s.clear()
 			s.ip++
 		case 'x': // rejected Push: nothing happens
+			s.ip++
+		case 'u': // the caller's final CleanUp
 			s.ip++
 		}
 	case 1:
@@ -165,6 +223,11 @@ func (s *simS) step(a int) bool {
 			return false
 		}
 		s.pool--
+		if s.err {
+			s.chunk = 0
+			s.fail()
+			break
+		}
 		s.chunk = 1
 		s.pos++
 		s.ln++
@@ -190,7 +253,17 @@ func (s *simS) step(a int) bool {
 		if s.wg != 0 {
 			return false
 		}
+		if s.err {
+			s.fail()
+			break
+		}
 		s.pos, s.rem = 0, s.ln
+		for i := 0; i < s.files; i++ {
+			if s.tick("seek") || s.tick("fdecode") {
+				s.fail()
+				return true
+			}
+		}
 		s.ip++
 		s.pc = 0
 		s.finalisedDisk++
@@ -215,9 +288,25 @@ func (s *simS) writersAlive() bool {
 }
 
 func newSim(c int, ac bool, ops []string) *simS {
-	s := &simS{c: c, pool: 1, ac: ac}
+	s := &simS{c: c, pool: 1, ac: ac, conc: true}
 	for _, o := range ops {
 		s.prog = append(s.prog, o[0])
+	}
+	return s
+}
+
+// newSimF: the simulator with a fault list ("-" or point:n+point:n...), for C13's generators.
+func newSimF(conc bool, c int, ac bool, ops []string, fault string, reuse bool) *simS {
+	s := newSim(c, ac, ops)
+	s.conc, s.reuse = conc, reuse
+	if !conc {
+		s.pool = 0
+	}
+	if fault != "-" && fault != "" {
+		for _, f := range strings.Split(fault, "+") {
+			i := strings.IndexByte(f, ':')
+			s.faults = append(s.faults, mFault{f[:i], hx.Atoi(f[i+1:])})
+		}
 	}
 	return s
 }
@@ -375,6 +464,30 @@ func c12Gen(g *hx.Gen) {
 		}
 		c12Enumerate(g, h.c, h.ac, ty, ops, capH)
 	}
+	// (1d) chunk sizes that are not a small power of two (5, 6, 7, 10), two cycles on one sorter:
+	// 2c+1 values (both buffers have been in use: the second one is the nil pre-seeded in pool,
+	// replaced in Push by a buffer of capacity c), drained, Clear, then c+1 values (the last one
+	// alone in the recycled second buffer).  A buffer whose capacity exceeds the chunk size makes
+	// Finalise's `pos < cap(chunk)` test take the in-memory path for c+1 values (seeded change
+	// C12-m5).  Orderings: a spawned writer runs to its end at once / the caller runs until it
+	// blocks (then the second buffer comes back to pool after the first) / random.
+	for _, c := range []int{5, 6, 7, 10} {
+		for _, extra := range []int{1, 2} {
+			if g.Done() || (extra == 2 && !g.Thorough() && c != 5) {
+				continue
+			}
+			ty := "i"
+			if g.Chance(0.3) {
+				ty = "s"
+			}
+			var ops []string
+			ops = c11Cycle(g, ops, c, ty, 2*c+1, 2*c+2, true, 60)
+			ops = c11Cycle(g, ops, c, ty, c+extra, c+extra+1, false, 60)
+			for pol := 0; pol < 3; pol++ {
+				g.Case(c12Line(c, false, ty, ops, c13Sched(g, c, false, ops, pol)))
+			}
+		}
+	}
 	// (1c) a rejected Push (a value of another type) when the chunk is exactly full, then
 	// Finalise: the rejected call must not hand the chunk over.  The schedule runs the writers
 	// of the earlier chunks to completion, then probes the writer that must not exist (flag x;
@@ -451,8 +564,11 @@ func c12Gen(g *hx.Gen) {
 	// (2) random walks on larger workloads and histories of 1..4 cycles, (3) probes
 	n := scale(750, 5000)
 	for k := 0; k < n && !g.Done(); k++ {
-		c := g.Pick(1, 2, 2, 3, 4)
+		c := g.Pick(1, 2, 2, 3, 4, 1, 2, 3, 4, g.Pick(5, 6, 7, 10))
 		chunks := g.Range(1, 4)
+		if c > 4 {
+			chunks = g.Range(1, 2)
+		}
 		last := g.Pick(0, 1, 1, c-1, c)
 		cnt := chunks*c + last
 		if g.Chance(0.1) {
